@@ -138,7 +138,11 @@ class ExpRun:
     # ---- durable state ----------------------------------------------------------------
     def _save(self, inc, path, timeline):
         inc.s.save_checkpoint(path)
-        self.ckpts[path] = {"tape": np.random.get_state(), "timeline": [list(x) for x in timeline], "saved_by": inc}
+        import copy as _copy
+        st_ = inc.s.get_state()
+        st_ = {"metadata": dict(st_["metadata"]), "state": {k_: _copy.deepcopy(v_) for k_, v_ in st_["state"].items()}}
+        self.ckpts[path] = {"tape": np.random.get_state(), "timeline": [list(x) for x in timeline], "saved_by": inc,
+                            "state": st_}
         self.last_ckpt = path
         tot = self._tl_total(timeline)
         self.ctx.log("checkpoint", path, tot)
@@ -168,6 +172,13 @@ class ExpRun:
         self._ref_cache[key] = (R, acc)
         return R, acc
 
+    def _warmup_calls(self):
+        """the prior warm-up, possibly given as several warmup() calls (scenario knob W_split)"""
+        k = self.sc.get("W_split")
+        if not k or k >= self.W:
+            return [self.W]
+        return [k, self.W - k]
+
     def _do_phase(self, inc, phase, n):
         self.cur_op_done = 0
         if phase == "warmup" and not inc.with_warmup:
@@ -182,7 +193,8 @@ class ExpRun:
         core.reset_volatile_globals()
         inc = self._new(0, True, not sc.get("lazy_init"))
         if self.W:
-            self._do_phase(inc, "warmup", self.W)
+            for w_ in self._warmup_calls():
+                self._do_phase(inc, "warmup", w_)
         segs = []     # finished incarnations: (inc, timeline at finish, chain, acc)
         pending_fs = None
         stop = False
@@ -264,7 +276,8 @@ class ExpRun:
                 self.timeline = []
                 new = self._new(0, True, not self.sc.get("lazy_init"))
                 if self.W:
-                    self._do_phase(new, "warmup", self.W)
+                    for w_ in self._warmup_calls():
+                        self._do_phase(new, "warmup", w_)
                 return new
             ctx.count("crash_skipped_no_checkpoint")
             return inc
@@ -281,7 +294,14 @@ class ExpRun:
         new.mode = mode
         new.parent = ck["saved_by"]
         with core.setup_stream(self.setup_seed + 1):
-            new.s.load_checkpoint(self.last_ckpt)
+            if ck.get("state") is not None and self.ctx.sched.random() < 0.5:
+                # the state dictionary is carried over in memory (get_state -> set_state) into a fresh, initialised
+                # sampler instead of going through the checkpoint file
+                new.s.initialize()
+                new.s.set_state(ck["state"])
+                self.ctx.fault("restart_by_state_dict")
+            else:
+                new.s.load_checkpoint(self.last_ckpt)
         np.random.set_state(ck["tape"])
         self.armed_cb_ckpt = None
         if getattr(new.s, "step_size", 0) is None:
@@ -415,6 +435,9 @@ class ExpRun:
     def _reinit_check(self, inc, n):
         ctx = self.ctx
         ctx.fault("reinitialize")
+        before = chain_of(inc.s)              # (also fills any cache get_samples() may keep)
+        if before.size and ctx.sched.random() < 0.5:
+            n = before.shape[1]               # a run of the same length as the one recorded before the reset
         pi = np.random.get_state()
         core.reset_volatile_globals()
         with core.setup_stream(self.setup_seed + 2):
@@ -440,6 +463,8 @@ def gen_exp_case(r, tier):
     sc = zoo.gen_exp_scenario(r)
     sc["iface"] = "exp"
     sc["W"] = r.choice([0, 0, 3, 7, 12])
+    if sc["W"] and r.random() < 0.3:
+        sc["W_split"] = r.randint(1, sc["W"] - 1)      # the warm-up is given as two warmup() calls
     sc["cb"] = r.random() < 0.8
     sc["lazy_init"] = r.random() < 0.5
     T = r.randint(1, 14)
